@@ -250,10 +250,17 @@ def body_formula(case, ctx):
     data = dec_arr(case["raster"])
     az, alt = case["az"], case["alt"]
     name = case.get("name", "elev")
-    da, cx, cy = build(case["cell"], data, name=name)
+    payload = data
+    if case.get("chunks"):
+        # the same raster held as a chunked dask array: the statement is about the raster, not about how it is stored
+        import dask.array as dsk
+        payload = dsk.from_array(data, chunks=tuple(tuple(c) for c in case["chunks"]))
+    da, cx, cy = build(case["cell"], payload, name=name)
     z = T.cast32(data)
     r = R()
     r.nt = _common_labels(r, case, data, z, cx, cy)
+    if case.get("chunks"):
+        r.label("dask", "dask_multi_chunk" if max(len(c) for c in case["chunks"]) > 1 else "dask_single_chunk")
     outs = call4(da, az, alt)
     aref = check_outputs(r, outs, z, cx, cy, az, alt)
     if T.flat_windows(z).any():
@@ -646,11 +653,16 @@ def angles():
 
 
 @st.composite
-def formula_cases(draw, dtypes, max_side):
+def formula_cases(draw, dtypes, max_side, dask=False):
     ras, meta = draw(elevations(dtypes, 2, max_side))
     az, alt = angles()
-    return {"sub": "formula", "raster": ras, "meta": meta, "cell": draw(cells()), "az": draw(az), "alt": draw(alt),
+    case = {"sub": "formula", "raster": ras, "meta": meta, "cell": draw(cells()), "az": draw(az), "alt": draw(alt),
             "name": draw(st.sampled_from(["elev", "dem", "my raster"])), "summ": draw(st.integers(0, 2)) == 0}
+    if dask:
+        h, w = len(ras["data"]), len(ras["data"][0])
+        case["chunks"] = [draw(S.chunking(h)), draw(S.chunking(w))]
+        case["summ"] = draw(st.integers(0, 5)) == 0
+    return case
 
 
 def _edit_values(draw, ras, meta):
@@ -790,6 +802,9 @@ def shards(tier):
     lside = 14 if th else 10
     for i in range(n_formula):
         out.append(("formula_rand#%d" % i, lambda ctx, i=i: drive_hypothesis(ctx, body_formula, formula_cases(_dtypes_for(i), side), per_formula)))
+    for i in range(4 if th else 2):
+        out.append(("formula_dask#%d" % i, lambda ctx, i=i: drive_hypothesis(ctx, body_formula, formula_cases(_dtypes_for(i + 2), 10, dask=True),
+                                                                              1200 if th else 150)))
     for i in range(n_local):
         out.append(("local_rand#%d" % i, lambda ctx, i=i: drive_hypothesis(ctx, body_local, local_cases(_dtypes_for(i + 1), lside), per_local)))
     for i in range(n_offset):
@@ -820,5 +835,5 @@ LEVEL_TEXT = ("Randomised (Hypothesis) plus bounded-exhaustive search. Every gen
               "bit-equality outside the 3x3 neighbourhood; offset and quarter-turn relations are bit-exact on float32-exact rasters. All 3^9 windows over "
               "three alphabets and every delivery form x 64 cell-size pairs are enumerated.")
 LEVEL_NOTE = ("Inside the enumerated spaces the result is a decision; outside them it is sampled. Assumes positive Python-number cell sizes, res=(x,y), "
-              "NumPy backend, no +-inf elevations; aspect and hillshade are taken to ignore the cell size and curvature to use the mean of the two sizes.")
+              "NumPy backend (plus a small dask-backed shard of the formula check), no +-inf elevations; aspect and hillshade are taken to ignore the cell size and curvature to use the mean of the two sizes.")
 TECHNIQUE = "property-based testing (Hypothesis) + exhaustive 3x3-window / delivery-form enumeration against an independent finite-difference reference model and metamorphic relations"
